@@ -46,6 +46,13 @@ func (r CharRecipe) n() *big.Int {
 // Unfortunately, we can't take the log until the very end, so we will
 // be dealing with some very large numbers.
 func n(allowed set.Set, required set.Set, length int) *big.Int {
+	// The recursive subtraction below is only valid when the required sets
+	// are pairwise disjoint. When they overlap (or repeat), count by
+	// inclusion-exclusion instead.
+	if !pairwiseDisjoint(required) {
+		return nOverlapping(allowed, required, length)
+	}
+
 	// totalCount is the total number of permutations possible when a
 	// password of length n is generated from the set R, which is the
 	// union of all sets in the password recipe.
@@ -84,6 +91,43 @@ func n(allowed set.Set, required set.Set, length int) *big.Int {
 	)
 
 	return totalCount.Sub(totalCount, rejectedCount)
+}
+
+// pairwiseDisjoint is true when no two of the sets in sets share an element
+func pairwiseDisjoint(sets set.Set) bool {
+	total := 0
+	for el := range sets.Iter() {
+		if elSet, ok := el.(set.Set); ok {
+			total += elSet.Cardinality()
+		}
+	}
+	return unionAll(sets).Cardinality() == total
+}
+
+// nOverlapping is the number of possible passwords when the required sets
+// may overlap one another. A password is rejected when it contains no
+// character of at least one required set, so the rejected passwords are
+// counted by inclusion-exclusion over the non-empty subsets of the required
+// sets: the passwords that avoid every set in a subset are those drawn from
+// the whole alphabet minus the union of that subset.
+func nOverlapping(allowed set.Set, required set.Set, length int) *big.Int {
+	R := unionAll(allowed.Union(required))
+	count := &big.Int{}
+	for el := range required.PowerSet().Iter() {
+		subset, ok := el.(set.Set)
+		if !ok {
+			continue
+		}
+		avoiding := R.Difference(unionAll(subset))
+		term := &big.Int{}
+		term.Exp(toBigInt(avoiding.Cardinality()), toBigInt(length), nil) // #nosec G105
+		if subset.Cardinality()%2 == 0 {
+			count.Add(count, term)
+		} else {
+			count.Sub(count, term)
+		}
+	}
+	return count
 }
 
 func toBigInt(i int) *big.Int {
